@@ -7,6 +7,7 @@ package main
 
 import (
 	"fmt"
+	"reflect"
 	"strconv"
 	"strings"
 
@@ -154,7 +155,14 @@ func (s *seqState) op(c *Ctx, line string) {
 		for i, ch := range s.q.Chans() {
 			s.chans[ch] = i
 		}
-		ans = "ok"
+		// structure assumed by the model: 2^k slots / tokens; ring: two distinct condition
+		// variables per slot (c1: callers, c2: the writer) sharing one mutex
+		if s.kind == "ring" {
+			ans = fmt.Sprintf("ok cv=%d n=%d", ringCondVars(s.q), len(s.q.Chans()))
+		} else {
+			_, _, _, size, _ := s.q.FlowLens()
+			ans = fmt.Sprintf("ok n=%d", size)
+		}
 	case "put", "putm", "next", "wait", "res", "fin":
 		if s.wouldBlock(w[0]) {
 			ans = "block"
@@ -223,6 +231,35 @@ func (s *seqState) op(c *Ctx, line string) {
 		}
 	}
 	c.Emit(line, ans, false)
+}
+
+// ringCondVars inspects (by reflection, read-only) how many distinct condition variables a
+// ring slot has: 2 = c1 and c2 are distinct *sync.Cond sharing one Locker (what the model
+// assumes: separate wait sets for callers and for the writer), 1 = only one wait set, 0 = other.
+func ringCondVars(q *rueidis.VerifQueue) (n int) {
+	defer func() {
+		if recover() != nil {
+			n = 0
+		}
+	}()
+	store := reflect.ValueOf(q).Elem().FieldByName("r").Elem().FieldByName("store")
+	n = 2
+	for i := 0; i < store.Len(); i++ {
+		node := store.Index(i)
+		c1, c2 := node.FieldByName("c1"), node.FieldByName("c2")
+		if !c1.IsValid() || c1.IsNil() {
+			return 0
+		}
+		if !c2.IsValid() || c2.IsNil() || c2.Pointer() == c1.Pointer() {
+			n = 1
+			continue
+		}
+		l1, l2 := c1.Elem().FieldByName("L"), c2.Elem().FieldByName("L")
+		if l1.IsNil() || l2.IsNil() || l1.Elem().Pointer() != l2.Elem().Pointer() {
+			return 0
+		}
+	}
+	return n
 }
 
 func chName(m map[chan rueidis.RedisResult]int, ch chan rueidis.RedisResult) string {
